@@ -1,5 +1,5 @@
 (* C13 — the rebroadcast section of an accepted block (model/CV.v, model/Supply.v),
-   code as of /repo 92b2ed5. *)
+   code as of /repo 9007b23. *)
 From Saito Require Import Base CV Supply Known CVProofs LedgerProofs SupplyProofs.
 From Coq Require Import Permutation.
 
